@@ -165,6 +165,25 @@ def sessions_from_dump(ctx, path, budget):
     return out
 
 
+def fresh_process_obs(e):
+    """the observation of one recorded call executed alone in a new interpreter (no earlier calls, no caches)"""
+    import subprocess
+    import sys
+    here = os.path.dirname(os.path.abspath(__file__))
+    code = ("import sys, json; sys.path.insert(0, %r); import qcexec; "
+            "d = json.load(sys.stdin); o = qcexec.execute(d['call'], json.loads(d['conc'])); o.pop('msg', None); "
+            "print('FRESH' + json.dumps({'out': o['out'], 'exc': o['exc']}))" % here)
+    try:
+        pr = subprocess.run([sys.executable, "-c", code], input=json.dumps({"call": e["call"], "conc": e["conc"]}),
+                            capture_output=True, text=True, timeout=120, env=dict(os.environ))
+        for line in pr.stdout.splitlines():
+            if line.startswith("FRESH"):
+                return json.loads(line[5:])
+    except Exception:  # noqa: BLE001
+        pass
+    return None
+
+
 def judge(ctx, rec, tag):
     """validate all recorded events with TLC, cross-check the dumped expectations, return owned rejects"""
     events = rec.events
@@ -179,12 +198,22 @@ def judge(ctx, rec, tag):
             if ok != ("rule" not in by_id.get(e["id"], ())):
                 raise tlc.MachineryError("replay comparison and trace verdict disagree on event %r" % e)
     owned, n_total = [], 0
+    fresh_checked = []
     for e in events:
         for cl in sorted(by_id.get(e["id"], ())):
             n_total += 1
             if e.get("variant") and cl != "rel" and cl in by_id.get(rec.base_of.get(e["id"]), ()):
                 continue    # the base-carrier twin is rejected on the same clause: not a carrier effect
             ow = owners(cl, e)
+            if ctx.prop == "C01" and cl == "rule" and "C01" not in ow and len(fresh_checked) < 40 and not e["obs"]["exc"]:
+                # C01 quantifies over call histories: a wrong result is C01's business exactly if the very same call gives
+                # another result in a fresh process (then it depended on what ran before it)
+                fresh_checked.append(e["id"])
+                fo = fresh_process_obs(e)
+                if fo is not None and (fo["out"] != e["obs"]["out"] or fo["exc"] != e["obs"]["exc"]):
+                    e["history"] = True
+                    e["fresh_obs"] = fo["out"]
+                    ow = ow | {"C01"}
             if ctx.prop in ow and in_domain(ctx.prop, e):
                 owned.append((e, cl))
             else:
@@ -208,6 +237,10 @@ def replay_payload_factory(rec):
         if e.get("history"):
             # the call used caller-owned parameter objects shared with earlier calls: the replay re-executes those first
             pre = [x for x in rec.events if x["id"] < e["id"] and x.get("history") and x["call"]["fn"] == e["call"]["fn"]]
+            if "fresh_obs" in e:
+                # found by the fresh-process comparison: whatever ran before it in this process may matter
+                pre = [x for x in rec.events if x["id"] < e["id"]]
+                out["fresh_process_result"] = e["fresh_obs"]
             out["prelude"] = [{"call": x["call"], "conc": x["conc"]} for x in pre[-80:]]
         return out
     return payload
